@@ -30,7 +30,47 @@ func one(xs []string, what string) string {
 	return xs[0]
 }
 
+// registries: each area file adds its extractor (reads the source, fills F) and generator (writes Gen/<Area>.lean)
+var extractors []func(repo string)
+var generators []func(dir string)
+
 func extractAll(repo string) {
+	for _, e := range extractors {
+		e(repo)
+	}
+}
+
+func writeGen(dir string) {
+	for _, g := range generators {
+		g(dir)
+	}
+}
+
+func init() {
+	extractors = append(extractors, extractCore)
+	generators = append(generators, genConsts)
+}
+
+// genConst / genFact: accessors for generators (record an error when missing)
+func genConst(k string) string {
+	v, ok := F.Consts[k]
+	if !ok {
+		fail("gen: missing const %s", k)
+		return "0"
+	}
+	return v
+}
+
+func genFact(k string) string {
+	v, ok := F.Facts[k]
+	if !ok || strings.HasPrefix(v, "?") {
+		fail("gen: missing fact %s", k)
+		return "0"
+	}
+	return v
+}
+
+func extractCore(repo string) {
 	// ---- pkg/wal
 	w := P(repo, "pkg/wal")
 	w.recordConst("RecordTypeFull", "RecordTypeFirst", "RecordTypeMiddle", "RecordTypeLast",
@@ -98,23 +138,8 @@ func (p *pkg) forBound(fn string) string {
 	return res
 }
 
-func writeGen(dir string) {
-	c := func(k string) string {
-		v, ok := F.Consts[k]
-		if !ok {
-			fail("gen: missing const %s", k)
-			return "0"
-		}
-		return v
-	}
-	f := func(k string) string {
-		v, ok := F.Facts[k]
-		if !ok || strings.HasPrefix(v, "?") {
-			fail("gen: missing fact %s", k)
-			return "0"
-		}
-		return v
-	}
+func genConsts(dir string) {
+	c, f := genConst, genFact
 	var sb strings.Builder
 	sb.WriteString("-- GENERATED by kvfacts from /repo's working tree on every run. Do not edit.\n")
 	sb.WriteString("import Kevo.Model.Wal\nimport Kevo.Model.Table\nnamespace Kevo.Gen\n\n")
